@@ -587,3 +587,31 @@ func FieldKindClass(md protoreflect.MessageDescriptor, path string) string {
 		return nested + "scalar"
 	}
 }
+
+// EqualModuloAncestors reports whether a and b are equal except for the presence (set-but-empty vs unset) of
+// messages that are strict ancestors of one of the regions.
+func EqualModuloAncestors(a, b proto.Message, regions []string) bool {
+	fa, fb := Flatten(a), Flatten(b)
+	okDiff := func(p string) bool {
+		if !strings.HasSuffix(p, "/") {
+			return false
+		}
+		for _, q := range regions {
+			if above(p, q) {
+				return true
+			}
+		}
+		return false
+	}
+	for p, v := range fa {
+		if fb[p] != v && !okDiff(p) {
+			return false
+		}
+	}
+	for p, v := range fb {
+		if fa[p] != v && !okDiff(p) {
+			return false
+		}
+	}
+	return true
+}
